@@ -352,6 +352,44 @@ func main() {
 		env.Add(fmt.Sprintf("LCase %d %s %s %s", 100+i, Cbool(stopped), Cbool(asPanic), Cbool(rest)),
 			fmt.Sprintf("LCase spinner entered through %s, Interrupt channel installed after a first Run: stopped=%v asPanic=%v rest=%v", how, stopped, asPanic, rest), "promptness", true)
 	}
+	// an interrupt queued for one runtime is consumed by that runtime only: a Copy() (or a copy of a copy) that
+	// runs a script in between must neither take it nor be stopped by it
+	for i, depth := range []int{1, 2} {
+		vm := otto.New()
+		_, _ = vm.Run(`var seen = 0; function spin() { for (;;) { seen = 1; } }`)
+		ich := make(chan func(), 1)
+		vm.Interrupt = ich
+		cp := vm.Copy()
+		if depth == 2 {
+			cp = cp.Copy()
+		}
+		ich <- func() { panic(haltMsg) }
+		co := RunJS(cp, `var t = 0; for (var i = 0; i < 50; i++) { t += i; } t`)
+		n, _ := co.Val.ToInteger()
+		copyOK := co.Err == nil && co.Panic == nil && n == 1225
+		ch := make(chan Outcome, 1)
+		go func() { ch <- RunJS(vm, `spin()`) }()
+		stopped, asPanic, rest := false, false, false
+		select {
+		case o := <-ch:
+			stopped = true
+			if s, ok := o.Panic.(string); ok && s == haltMsg {
+				asPanic = true
+			}
+			d, _ := vm.VerifScopeDepth()
+			rest = copyOK && d == -1 && vm.VerifLabelCount() == 0
+		case <-time.After(3 * time.Second):
+			// the interrupt went elsewhere: stop the spinner so that the harness can go on
+			select {
+			case ich <- func() { panic(haltMsg) }:
+				<-ch
+			case <-time.After(2 * time.Second):
+			}
+		}
+		env.Add(fmt.Sprintf("LCase %d %s %s %s", 200+i, Cbool(stopped), Cbool(asPanic), Cbool(rest)),
+			fmt.Sprintf("LCase interrupt queued for the original while a copy (depth %d) runs a script: copy unaffected=%v; original stopped=%v asPanic=%v", depth, copyOK, stopped, asPanic), "copy-channel", true)
+	}
+	withScenarios(env)
 	for env.Count() < env.N {
 		budget := 4 + env.Rng.Intn(14)
 		if env.Tier == "thorough" {
@@ -463,4 +501,92 @@ func stripStmt(s minijs.Stmt) minijs.Stmt {
 		return minijs.SBlock{L: stripList(t.B)}
 	}
 	return s
+}
+
+
+// ---- abnormal exits that cross a `with` statement (and nested try/finally): the scope chain must be back to the
+// function's own environment when a handler in the same activation goes on. The JavaScript text really raises the
+// exit (throw, ReferenceError, TypeError, stack-limit RangeError); the reference term (C01/Full.v) has `throw` at
+// that point: what is logged never depends on the thrown value.
+func withScenarios(env *Env) {
+	cs := func(s string) string {
+		parts := make([]string, len(s))
+		for i := 0; i < len(s); i++ {
+			parts[i] = fmt.Sprintf("%d", s[i])
+		}
+		return "[" + strings.Join(parts, ";") + "]"
+	}
+	xv := func(n string) string { return "(XVar " + cs(n) + ")" }
+	num := func(n int) string { return fmt.Sprintf("(XLit (WNum %d))", n) }
+	logv := func(e string) string { return "JExpr (XLog " + e + ")" }
+	exits := []struct{ name, js string }{
+		{"throw", "throw 5;"},
+		{"stack-limit", "return boom(n + 1) + 1;"},
+		{"reference-error", "nowhere();"},
+		{"type-error", "var u; u();"},
+	}
+	wobjs := []struct{ js, coq string }{
+		{"{x: 3}", "(XObj [(" + cs("x") + ", " + num(3) + ")])"},
+		{"w", xv("w")},
+	}
+	boomCoq := "JFunDecl " + cs("boom") + " [" + cs("n") + "] [JThrow " + num(5) + "]"
+	prelCoq := "JVar " + cs("x") + " (Some " + num(1) + "); JVar " + cs("w") + " (Some (XObj [(" + cs("x") + ", " + num(3) + ")])); " + boomCoq
+	tailJS := "log(f()); log(x); log(w.x);"
+	tailCoq := logv("(XCall "+xv("f")+" [])") + "; " + logv(xv("x")) + "; " + logv("(XGet "+xv("w")+" "+cs("x")+")")
+	after := "log(x); x = 4; log(x); return x;"
+	afterCoq := logv(xv("x")) + "; JExpr (XAssign " + cs("x") + " " + num(4) + "); " + logv(xv("x")) + "; JReturn (Some " + xv("x") + ")"
+	callBoom := "JExpr (XCall " + xv("boom") + " [" + num(0) + "])"
+	id := 0
+	for _, ex := range exits {
+		for _, wo := range wobjs {
+			shapes := []struct{ name, js, coq string }{
+				{"catch in the same function",
+					"function f() { var x = 2; try { with (" + wo.js + ") { log(x); boom(0); log(9); } } catch (e) { log(7); } " + after + " }",
+					"JFunDecl " + cs("f") + " [] [JVar " + cs("x") + " (Some " + num(2) + "); JTry [JWith " + wo.coq + " (JBlock [" + logv(xv("x")) + "; " + callBoom + "; " + logv(num(9)) + "])] (Some (" + cs("e") + ", [" + logv(num(7)) + "])) None; " + afterCoq + "]"},
+				{"nested with + finally inside, catch in the same function",
+					"function f() { var x = 2; try { with (" + wo.js + ") { with ({y: 1}) { try { boom(0); } finally { log(x); log(y); } } } } catch (e) { log(7); } " + after + " }",
+					"JFunDecl " + cs("f") + " [] [JVar " + cs("x") + " (Some " + num(2) + "); JTry [JWith " + wo.coq + " (JBlock [JWith (XObj [(" + cs("y") + ", " + num(1) + ")]) (JBlock [JTry [" + callBoom + "] None (Some [" + logv(xv("x")) + "; " + logv(xv("y")) + "])])])] (Some (" + cs("e") + ", [" + logv(num(7)) + "])) None; " + afterCoq + "]"},
+				{"with in a callee, catch in the caller",
+					"function h() { var x = 6; with (" + wo.js + ") { log(x); boom(0); } return x; } function f() { var x = 2; try { h(); } catch (e) { log(7); } " + after + " }",
+					"JFunDecl " + cs("h") + " [] [JVar " + cs("x") + " (Some " + num(6) + "); JWith " + wo.coq + " (JBlock [" + logv(xv("x")) + "; " + callBoom + "]); JReturn (Some " + xv("x") + ")]; JFunDecl " + cs("f") + " [] [JVar " + cs("x") + " (Some " + num(2) + "); JTry [JExpr (XCall " + xv("h") + " [])] (Some (" + cs("e") + ", [" + logv(num(7)) + "])) None; " + afterCoq + "]"},
+				{"catch inside the with body, then go on inside it",
+					"function f() { var x = 2; with (" + wo.js + ") { try { boom(0); } catch (e) { log(x); } x = 5; log(x); } " + after + " }",
+					"JFunDecl " + cs("f") + " [] [JVar " + cs("x") + " (Some " + num(2) + "); JWith " + wo.coq + " (JBlock [JTry [" + callBoom + "] (Some (" + cs("e") + ", [" + logv(xv("x")) + "])) None; JExpr (XAssign " + cs("x") + " " + num(5) + "); " + logv(xv("x")) + "]); " + afterCoq + "]"},
+			}
+			for _, sh := range shapes {
+				js := "var x = 1; var w = {x: 3};\nfunction boom(n) { " + ex.js + " }\n" + sh.js + "\n" + tailJS
+				src := strings.ReplaceAll(js, "\\n", "\n")
+				vm := otto.New()
+				if ex.name == "stack-limit" {
+					vm.SetStackDepthLimit(40 + id%9)
+				}
+				var log []string
+				_ = vm.Set("log", func(c otto.FunctionCall) otto.Value {
+					v := c.Argument(0)
+					switch {
+					case v.IsNumber():
+						n, _ := v.ToInteger()
+						log = append(log, fmt.Sprintf("(WNum %s)", Cz(n)))
+					case v.IsUndefined():
+						log = append(log, "WUndef")
+					default:
+						log = append(log, "WBig")
+					}
+					return otto.UndefinedValue()
+				})
+				o := RunJS(vm, src)
+				if o.Err != nil || o.Panic != nil {
+					log = append(log, "WNull") // the scenario itself must complete: anything else shows as a log mismatch
+				}
+				d, _ := vm.VerifScopeDepth()
+				fo := RunJS(vm, `var q = 0; with ({q: 1}) { q = 2; } q`)
+				n, _ := fo.Val.ToInteger()
+				follow := d == -1 && vm.VerifLabelCount() == 0 && fo.Err == nil && fo.Panic == nil && n == 0
+				coq := "[" + prelCoq + "; " + sh.coq + "; " + tailCoq + "]"
+				env.Add(fmt.Sprintf("WCase %s %s %s", coq, Clist(log), Cbool(follow)),
+					fmt.Sprintf("WCase %s / %s / with (%s): %s => log=%v atRestAndFollowup=%v", ex.name, sh.name, wo.js, strings.ReplaceAll(src, "\n", " "), log, follow), "with-exit", true)
+				id++
+			}
+		}
+	}
 }
